@@ -240,17 +240,28 @@ fn send_request_failed_error(
     }))
 }
 
+/// The LSP measures positions within a line in UTF-16 code units (unless a
+/// different encoding has been negotiated, which we don't do), while we work
+/// with byte offsets into UTF-8 strings.
+fn utf16_column(line: &str, byte_offset: usize) -> u32 {
+    let prefix = line.get(..byte_offset).unwrap_or(line);
+    prefix.encode_utf16().count() as u32
+}
+
 fn get_semantic_tokens(analyzer: &SourceFileAnalyzer) -> SemanticTokens {
     let mut data: Vec<SemanticToken> = vec![];
     let mut prev_line_number = 0;
+    let source_lines = analyzer.source_file_lines();
     for (line_number, line) in analyzer.token_types().iter().enumerate() {
         let mut prev_token_start = 0;
+        let source_line = source_lines.get(line_number).map_or("", |s| s.as_str());
         for (abasic_token_type, range) in line {
             let delta_line = (line_number - prev_line_number) as u32;
             prev_line_number = line_number;
-            let delta_start = (range.start - prev_token_start) as u32;
-            prev_token_start = range.start;
-            let length = range.len() as u32;
+            let start = utf16_column(source_line, range.start);
+            let delta_start = start - prev_token_start;
+            prev_token_start = start;
+            let length = utf16_column(source_line, range.end) - start;
             let token_type = abasic_token_type_to_lsp_token_type(*abasic_token_type);
             data.push(SemanticToken {
                 delta_line,
@@ -274,9 +285,13 @@ fn analyze_source_file(analyzer: &SourceFileAnalyzer) -> Vec<Diagnostic> {
     let source_map = analyzer.source_file_map();
     for message in messages {
         if let Some((line, range)) = source_map.map_to_source(&message) {
+            let source_line = analyzer
+                .source_file_lines()
+                .get(line)
+                .map_or("", |s| s.as_str());
             let diag_range = Range::new(
-                Position::new(line as u32, range.start as u32),
-                Position::new(line as u32, range.end as u32),
+                Position::new(line as u32, utf16_column(source_line, range.start)),
+                Position::new(line as u32, utf16_column(source_line, range.end)),
             );
             let (severity, content) = match message {
                 DiagnosticMessage::Warning(_line, _loc, msg) => {
